@@ -306,9 +306,66 @@ fn torsion_and_tables(f: &mut Fill, n_mixed: usize) -> Vec<NegCase> {
             out.push(NegCase { pk: Hex(p.to_vec()), msg: Hex(msg.clone()), sig: Hex(sg.to_vec()), prehashed, family: "small-order or non-canonical pk, S=0".into() });
         }
     }
-    // mixed-order public keys A' = A + T and commitments R' = R + T: built with the big-integer model
     let l = models::ed_l();
     let base = models::ed_base();
+    // Signatures CRAFTED so that the cofactorless equation holds although R or the public key has small order
+    // (a plain sweep of small-order encodings with unrelated S fails the equation anyway and proves nothing):
+    //  (i) R = any encoding of the identity, S = k*a mod L  =>  [S]B = R + [k]A;
+    // (ii) public key = small-order T, R = [r]B, S = r, message searched until k = H(R,T,M) = 0 mod ord(T)  =>  [S]B = R + [k]T.
+    {
+        let seed: [u8; 32] = f.arr();
+        let h = models::sha512(&seed);
+        let mut sc = [0u8; 32];
+        sc.copy_from_slice(&h[..32]);
+        sc[0] &= 248;
+        sc[31] &= 63;
+        sc[31] |= 64;
+        let a = BigUint::from_bytes_le(&sc);
+        let a_enc = models::ed_encode(&models::ed_mul(&a, &base));
+        let identity_aliases: Vec<[u8; 32]> = so.iter().copied().filter(|e| models::ed_decode(e, false).map_or(false, |p| p == models::ed_identity())).collect();
+        for r_enc in &identity_aliases {
+            for prehashed in [false, true] {
+                for j in 0..3u8 {
+                    let msg = vec![j, 0x11];
+                    let hashed = if prehashed { models::sha512(&msg).to_vec() } else { msg.clone() };
+                    let mut inp = if prehashed { models::DOM2_PH.to_vec() } else { vec![] };
+                    inp.extend_from_slice(r_enc);
+                    inp.extend_from_slice(&a_enc);
+                    inp.extend_from_slice(&hashed);
+                    let k = BigUint::from_bytes_le(&models::sha512(&inp)) % &l;
+                    let s = (&k * &a) % &l;
+                    let mut sg = [0u8; 64];
+                    sg[..32].copy_from_slice(r_enc);
+                    sg[32..].copy_from_slice(&models::to32(&s));
+                    out.push(NegCase { pk: Hex(a_enc.to_vec()), msg: Hex(msg), sig: Hex(sg.to_vec()), prehashed, family: "crafted: R = identity (small order), S = k*a so the equation holds".into() });
+                }
+            }
+        }
+        let r = BigUint::from_bytes_le(&f.bytes(32)) % &l;
+        let r_enc = models::ed_encode(&models::ed_mul(&r, &base));
+        for t_enc in &so {
+            let Some(tp) = models::ed_decode(t_enc, false) else { continue };
+            let mut found = 0;
+            for j in 0..200u32 {
+                let msg = j.to_le_bytes().to_vec();
+                let mut inp = r_enc.to_vec();
+                inp.extend_from_slice(t_enc);
+                inp.extend_from_slice(&msg);
+                let k = BigUint::from_bytes_le(&models::sha512(&inp)) % &l;
+                if models::ed_mul(&k, &tp) == models::ed_identity() {
+                    let mut sg = [0u8; 64];
+                    sg[..32].copy_from_slice(&r_enc);
+                    sg[32..].copy_from_slice(&models::to32(&r));
+                    out.push(NegCase { pk: Hex(t_enc.to_vec()), msg: Hex(msg), sig: Hex(sg.to_vec()), prehashed: false, family: "crafted: small-order public key with [k]A = O so the equation holds".into() });
+                    found += 1;
+                    if found >= 2 {
+                        break;
+                    }
+                }
+            }
+        }
+    }
+    // mixed-order public keys A' = A + T and commitments R' = R + T: built with the big-integer model
     let torsion: Vec<models::EdPoint> = so.iter().filter_map(|e| models::ed_decode(e, false)).filter(|p| *p != models::ed_identity()).collect();
     for i in 0..n_mixed {
         let seed: [u8; 32] = f.arr();
